@@ -101,6 +101,9 @@ VViewVerdict(ev) ==
                        \cup path("it+=", ev.p_itadv) \cup path("loc+=", ev.p_locmove) \cup path("cache_location", ev.p_cache)
                        \cup path("axis++", ev.p_axis) \cup path("begin..end", ev.p_loop)
                        \cup path("assigned-view", ev.p_assigned) \cup path("assigned-iterator", ev.p_assigned_it)
+                       \* a derived view stored by assignment is still the derived view (C02: its pixels are those of the formula)
+                       \cup (IF ev.p_assigned # exp \/ ev.p_assigned_it # exp
+                             THEN {V("P_Map", "None", key \o ":assigned", [ctx |-> ctx, expected |-> exp, got |-> ev.p_assigned, got_it |-> ev.p_assigned_it])} ELSE {})
                   ELSE {})
             \cup (IF ev.size1d # d[1] * d[2] THEN {V("P_Size1D", "None", key, [ctx |-> ctx, got |-> ev.size1d])} ELSE {})
             \cup (IF ev.bad_assoc + ev.bad_back + ev.bad_dist + ev.bad_order + ev.bad_incdec > 0
